@@ -334,6 +334,28 @@ def escWs (incomplete : LexErrKind) : Bool → Nat → Text → EscOut
     else if trimming then { res := .ok none, pos, rest := c :: cs }
     else { res := .error .invalidWs, err := some (pos, pos + c.utf8Size), pos, rest := c :: cs }
 
+/-- the optional `{` of `\u{..}`: terminator, position and text after it (`pos` = after the code letter) -/
+def hexOpen (code : Char) (pos : Nat) (cs : Text) : Char × Nat × Text :=
+  match cs with
+  | '{' :: r => if code == 'u' then ('}', pos + 1, r) else (';', pos, cs)
+  | _ => (';', pos, cs)
+
+/-- the digits and terminator of a hex escape; `start` = byte offset of the backslash -/
+def readHexEscape (incomplete : LexErrKind) (delim : Char) (start pos1 : Nat) (endCh : Char)
+    (cs1 : Text) : EscOut :=
+  match scanHex endCh delim cs1 with
+  | .eof ds => { res := .error incomplete, pos := pos1 + utf8Len ds, rest := [] }
+  | .bad ds _ r =>
+    let pe := pos1 + utf8Len ds + 1
+    { res := .error (.unclosedHex endCh), err := some (start, pe - 1), pos := pe, rest := r }
+  | .done ds r =>
+    let pe := pos1 + utf8Len ds + 1
+    match parseHexU32 ds with
+    | none => { res := .error .invalidHexLiteral, err := some (start, pe), pos := pe, rest := r }
+    | some n =>
+      if validScalar n then { res := .ok (some (Char.ofNat n)), pos := pe, rest := r }
+      else { res := .error (.invalidCodePoint n), err := some (start, pe), pos := pe, rest := r }
+
 /-- `read_string_escape`, called with the backslash already eaten (`pos` = `token_end`). -/
 def readEscape (incomplete : LexErrKind) (delim : Char) (pos : Nat) : Text → EscOut
   | [] => { res := .error incomplete, pos, rest := [] }
@@ -349,22 +371,8 @@ def readEscape (incomplete : LexErrKind) (delim : Char) (pos : Nat) : Text → E
     else if c == 'r' then one '\r'
     else if c == '0' then one (Char.ofNat 0)
     else if c == 'x' || c == 'u' then
-      let start := pos + 1 - 2
-      let (endCh, pos1, cs1) : Char × Nat × Text := match cs with
-        | '{' :: r => if c == 'u' then ('}', pos + 2, r) else (';', pos + 1, cs)
-        | _ => (';', pos + 1, cs)
-      match scanHex endCh delim cs1 with
-      | .eof ds => { res := .error incomplete, pos := pos1 + utf8Len ds, rest := [] }
-      | .bad ds _ r =>
-        let pe := pos1 + utf8Len ds + 1
-        { res := .error (.unclosedHex endCh), err := some (start, pe - 1), pos := pe, rest := r }
-      | .done ds r =>
-        let pe := pos1 + utf8Len ds + 1
-        match parseHexU32 ds with
-        | none => { res := .error .invalidHexLiteral, err := some (start, pe), pos := pe, rest := r }
-        | some n =>
-          if validScalar n then { res := .ok (some (Char.ofNat n)), pos := pe, rest := r }
-          else { res := .error (.invalidCodePoint n), err := some (start, pe), pos := pe, rest := r }
+      readHexEscape incomplete delim (pos + 1 - 2) (hexOpen c (pos + 1) cs).2.1 (hexOpen c (pos + 1) cs).1
+        (hexOpen c (pos + 1) cs).2.2
     else if c == ' ' || c == '\t' || c == '\n' then
       escWs incomplete (c == '\n') (pos + 1) cs
     else
@@ -432,23 +440,17 @@ def scanWordAux : Bool → Text → Text × Text
 
 def scanWord (cs : Text) : Text × Text := scanWordAux false cs
 
-def kwOf (s : Text) : Option Tok :=
-  if s == t!"." then some .dot
-  else if s == t!"if" then some (.kw .if_)
-  else if s == t!"let" then some (.kw .let_)
-  else if s == t!"define" || s == t!"defn" || s == t!"#%define" then some (.kw .define)
-  else if s == t!"%plain-let" then some (.kw .testLet)
-  else if s == t!"return!" then some (.kw .return_)
-  else if s == t!"begin" then some (.kw .begin_)
-  else if s == t!"lambda" || s == t!"fn" || s == t!"#%plain-lambda" || s == t!"λ" then
-    some (.kw .lambda)
-  else if s == t!"quote" then some (.kw .quote)
-  else if s == t!"syntax-rules" then some (.kw .syntaxRules)
-  else if s == t!"define-syntax" then some (.kw .defineSyntax)
-  else if s == t!"..." then some (.kw .ellipses)
-  else if s == t!"set!" then some (.kw .set_)
-  else if s == t!"require" then some (.kw .require)
-  else none
+/-- the spellings `read_word` turns into dedicated tokens -/
+def kwTable : List (Text × Tok) :=
+  [ (t!".", .dot), (t!"if", .kw .if_), (t!"let", .kw .let_),
+    (t!"define", .kw .define), (t!"defn", .kw .define), (t!"#%define", .kw .define),
+    (t!"%plain-let", .kw .testLet), (t!"return!", .kw .return_), (t!"begin", .kw .begin_),
+    (t!"lambda", .kw .lambda), (t!"fn", .kw .lambda), (t!"#%plain-lambda", .kw .lambda),
+    (t!"λ", .kw .lambda), (t!"quote", .kw .quote), (t!"syntax-rules", .kw .syntaxRules),
+    (t!"define-syntax", .kw .defineSyntax), (t!"...", .kw .ellipses), (t!"set!", .kw .set_),
+    (t!"require", .kw .require) ]
+
+def kwOf (s : Text) : Option Tok := (kwTable.find? (fun e => e.1 == s)).map (·.2)
 
 /-- the escaped (`|..|`) loop of `read_word`, after the opening bar.
     Returns the raw characters eaten (reversed), the identifier pieces (reversed). -/
@@ -469,24 +471,20 @@ def scanBar : Nat → Nat → Text → Text → Text →
       | .error k => .error (k, e.err, e.pos, e.rest)
     else scanBar f pos1 (c :: raw) (c :: ident) cs
 
-/-- the token `read_word` makes of the slice -/
-def wordToken (slice : Text) (escaped : Bool) (ident : Text) (queuedFree : Bool) :
-    Except LexErrKind (Tok × Option Tok) :=
+/-- the token `read_word` makes of the slice (`queued` is always free when `read_word` runs).
+    Order as in the Rust: keywords, then `+x` (split into `+` and the queued rest), then `|..|`. -/
+def wordToken (slice : Text) (escaped : Bool) (ident : Text) : Except LexErrKind (Tok × Option Tok) :=
   match kwOf slice with
   | some t => .ok (t, none)
   | none =>
-    match slice with
-    | '+' :: r@(_ :: _) =>
-      if queuedFree then .ok (.ident ['+'], some (.ident r))
-      else if escaped then .error .incompleteIdent        -- unreachable: `queued` is always free here
-      else .ok (.ident slice, none)
-    | _ =>
-      if escaped then
-        if slice.head? == some '|' && slice.getLast? == some '|' && slice.length ≥ 2 then
-          if ident.isEmpty then .ok (.ident (slice.drop 1).dropLast, none)
-          else .ok (.ident ident, none)
-        else .error .incompleteIdent
-      else .ok (.ident slice, none)
+    if slice.head? == some '+' && decide (2 ≤ slice.length) then
+      .ok (.ident ['+'], some (.ident (slice.drop 1)))
+    else if escaped then
+      if slice.head? == some '|' && slice.getLast? == some '|' && decide (2 ≤ slice.length) then
+        if ident.isEmpty then .ok (.ident (slice.drop 1).dropLast, none)
+        else .ok (.ident ident, none)
+      else .error .incompleteIdent
+    else .ok (.ident slice, none)
 
 /-- `read_word`; `acc` = characters of the current token already eaten (the slice so far). -/
 def readWord (acc : Text) (pos : Nat) (cs : Text) : Step :=
@@ -496,13 +494,13 @@ def readWord (acc : Text) (pos : Nat) (cs : Text) : Step :=
     | .error (k, e, p, r) => { res := .error k, err := e, pos := p, rest := r }
     | .ok (raw, ident, p, r) =>
       let slice := acc ++ '|' :: raw.reverse
-      match wordToken slice true ident.reverse true with
+      match wordToken slice true ident.reverse with
       | .ok (t, q) => { res := .ok t, pos := p, rest := r, queued := q }
       | .error k => { res := .error k, pos := p, rest := r }
   | _ =>
     let (w, r) := scanWord cs
     let slice := acc ++ w
-    match wordToken slice false [] true with
+    match wordToken slice false [] with
     | .ok (t, q) => { res := .ok t, pos := pos + utf8Len w, rest := r, queued := q }
     | .error k => { res := .error k, pos := pos + utf8Len w, rest := r }
 
@@ -644,39 +642,37 @@ def isDocComment (line : Text) : Bool :=
 
 /-- one token; `c :: cs` is the text at `pos` (= `token_start`), `c` not whitespace -/
 def lexOne (pos : Nat) (c : Char) (cs : Text) : Step :=
-  let p1 := pos + c.utf8Size
-  let simple (t : Tok) : Step := { res := .ok t, pos := p1, rest := cs }
   if c == ';' then
-    let (w, r) := restOfLine cs
-    { res := .ok (.comment (isDocComment (c :: w))), pos := p1 + utf8Len w, rest := r }
-  else if c == '"' then readStr (cs.length + 1) p1 [] cs
-  else if c == '(' then simple (.open_ .round none)
-  else if c == '[' then simple (.open_ .square none)
-  else if c == '{' then simple (.open_ .curly none)
-  else if c == ')' then simple (.close .round)
-  else if c == ']' then simple (.close .square)
-  else if c == '}' then simple (.close .curly)
-  else if c == '\'' then simple .tick
-  else if c == '`' then simple .quasi
+    { res := .ok (.comment (isDocComment (c :: (restOfLine cs).1))),
+      pos := pos + c.utf8Size + utf8Len (restOfLine cs).1, rest := (restOfLine cs).2 }
+  else if c == '"' then readStr (cs.length + 1) (pos + c.utf8Size) [] cs
+  else if c == '(' then { res := .ok (.open_ .round none), pos := pos + c.utf8Size, rest := cs }
+  else if c == '[' then { res := .ok (.open_ .square none), pos := pos + c.utf8Size, rest := cs }
+  else if c == '{' then { res := .ok (.open_ .curly none), pos := pos + c.utf8Size, rest := cs }
+  else if c == ')' then { res := .ok (.close .round), pos := pos + c.utf8Size, rest := cs }
+  else if c == ']' then { res := .ok (.close .square), pos := pos + c.utf8Size, rest := cs }
+  else if c == '}' then { res := .ok (.close .curly), pos := pos + c.utf8Size, rest := cs }
+  else if c == '\'' then { res := .ok .tick, pos := pos + c.utf8Size, rest := cs }
+  else if c == '`' then { res := .ok .quasi, pos := pos + c.utf8Size, rest := cs }
   else if c == ',' then
     match cs with
-    | '@' :: cs' => { res := .ok .splice, pos := p1 + 1, rest := cs' }
-    | _ => simple .unquote
-  else if c == '+' || c == '-' || c == '.' then readNumber [c] p1 cs
+    | '@' :: cs' => { res := .ok .splice, pos := pos + c.utf8Size + 1, rest := cs' }
+    | _ => { res := .ok .unquote, pos := pos + c.utf8Size, rest := cs }
+  else if c == '+' || c == '-' || c == '.' then readNumber [c] (pos + c.utf8Size) cs
   else if c == '#' then
     match cs with
-    | [] => readHash pos p1 cs
+    | [] => readHash pos (pos + c.utf8Size) cs
     | d :: cs' =>
       if d == 'x' || d == 'X' || d == 'd' || d == 'D' || d == 'o' || d == 'O' || d == 'b' || d == 'B' then
-        readNumber [c, d] (p1 + 1) cs'
-      else if d == '|' then nestComment 0 1 (p1 + 1) cs'
-      else if d == ';' then { res := .ok .dcomment, pos := p1 + 1, rest := cs' }
-      else if d == '#' then { res := .error (.unexpectedChar '#'), pos := p1 + 1, rest := cs' }
+        readNumber [c, d] (pos + c.utf8Size + 1) cs'
+      else if d == '|' then nestComment 0 1 (pos + c.utf8Size + 1) cs'
+      else if d == ';' then { res := .ok .dcomment, pos := pos + c.utf8Size + 1, rest := cs' }
+      else if d == '#' then { res := .error (.unexpectedChar '#'), pos := pos + c.utf8Size + 1, rest := cs' }
       else if d == '<' then
         match cs' with
-        | '<' :: cs'' => readHere (p1 + 2) cs''
-        | _ => readWord [c, d] (p1 + 1) cs'
-      else readHash pos p1 cs
+        | '<' :: cs'' => readHere (pos + c.utf8Size + 2) cs''
+        | _ => readWord [c, d] (pos + c.utf8Size + 1) cs'
+      else readHash pos (pos + c.utf8Size) cs
   else if isDigit c && c != '_' then readNumber [] pos (c :: cs)
   else readWord [] pos (c :: cs)
 
@@ -690,6 +686,16 @@ def skipWs : Text → Text × Text
   | [] => ([], [])
   | c :: cs => if isWs c then let (w, r) := skipWs cs; (c :: w, r) else ([], c :: cs)
 
+/-- `self.error` after a token: only an explicit assignment changes it (it is never reset) -/
+def newErrSpan (e : Option (Nat × Nat)) (old : Nat × Nat) : Nat × Nat :=
+  match e with
+  | some e => e
+  | none => old
+
+/-- the span reported for an error: `self.error` when it is non-empty, else the token span -/
+def errReport (errSpan : Nat × Nat) (start pos : Nat) : Nat × Nat :=
+  if errSpan.1 < errSpan.2 then errSpan else (start, pos)
+
 /-- the token stream (comments kept, as the parser sees it) -/
 def lexLoop : Nat → LexSt → Text → List LexItem
   | 0, _, _ => [.err .outOfFuel 0 0]
@@ -697,26 +703,28 @@ def lexLoop : Nat → LexSt → Text → List LexItem
     match st.queued with
     | some t => .tok t st.tokStart st.pos :: lexLoop f { st with queued := none } cs
     | none =>
-      let (w, cs1) := skipWs cs
-      let start := st.pos + utf8Len w
-      match cs1 with
+      match (skipWs cs).2 with
       | [] => []
       | c :: rest =>
+        let start := st.pos + utf8Len (skipWs cs).1
         let s := lexOne start c rest
-        let errSpan := match s.err with
-          | some e => e
-          | none => st.errSpan
-        let st' : LexSt := { pos := s.pos, tokStart := start, errSpan, queued := s.queued }
+        let st' : LexSt := { pos := s.pos, tokStart := start, errSpan := newErrSpan s.err st.errSpan,
+                             queued := s.queued }
         match s.res with
         | .ok t => .tok t start s.pos :: lexLoop f st' s.rest
         | .error k =>
-          let (a, b) := if errSpan.1 < errSpan.2 then errSpan else (start, s.pos)
-          .err k a b :: lexLoop f st' s.rest
+          .err k (errReport st'.errSpan start s.pos).1 (errReport st'.errSpan start s.pos).2
+            :: lexLoop f st' s.rest
+
+/-- the text up to (not including) the first newline, and the rest -/
+def splitAtNewline : Text → Text × Text
+  | [] => ([], [])
+  | c :: cs => if c == '\n' then ([], c :: cs) else let (w, r) := splitAtNewline cs; (c :: w, r)
 
 /-- `strip_shebang_line`: characters of the first line when the text starts with `#!` -/
 def shebang (cs : Text) : Text × Text :=
   match cs with
-  | '#' :: '!' :: _ => cs.span (· != '\n')
+  | '#' :: '!' :: _ => splitAtNewline cs
   | _ => ([], cs)
 
 def lex (src : Text) : List LexItem :=
